@@ -2,7 +2,8 @@
 # Evaluate one seeded change: tools/seed_eval.sh <seed dir> [tier] [check ids...]
 #   applies <dir>/patch.diff to /repo, runs the repository's own suite (must still pass), runs the
 #   given checks (default: all claimed) at the given tier (default quick), writes <dir>/result.json,
-#   and always restores /repo afterwards.
+#   and always restores /repo afterwards. MERGE=1 merges into an existing result.json (for re-running
+#   only the checks that changed).
 set -u
 dir="$(realpath "$1")"; tier="${2:-quick}"; shift; shift 2>/dev/null
 cd /verif
@@ -23,5 +24,14 @@ for id in $ids; do
   echo "$id rc=$rc $(echo "$out" | grep -E "^VIOLATION|ENGINE-FAILURE" | head -1 | cut -c1-220)"
 done
 res="$res}}"
-echo "$res" | python3 -m json.tool > "$dir/result.json"
+if [ "${MERGE:-0}" = 1 ] && [ -f "$dir/result.json" ]; then
+  # MERGE=1: keep the earlier verdicts of the checks not re-run now
+  echo "$res" | python3 -c "
+import json,sys
+new=json.load(sys.stdin); old=json.load(open('$dir/result.json'))
+old['suite']=new['suite']; old['checks'].update(new['checks'])
+json.dump(old,open('$dir/result.json','w'),indent=4)"
+else
+  echo "$res" | python3 -m json.tool > "$dir/result.json"
+fi
 echo "suite: $suite"
